@@ -159,6 +159,9 @@ ChildrenFirst == \A i \in 1..Len(calls) : \A n \in TNodes :
     (n.path # calls[i].n /\ IsPrefix(calls[i].n, n.path)) =>
         (n.path \in CalledPaths /\ Idx(n.path) < i)
 
+\* p is translated before q because they sit in two items of one list, p in the later one
+ListBefore(p, q) == \E k \in 1..Len(p) : /\ k <= Len(q) /\ SubSeq(p, 1, k - 1) = SubSeq(q, 1, k - 1)
+                                         /\ p[k][1] = "i" /\ q[k][1] = "i" /\ p[k][2] > q[k][2]
 \* "within a list, later items before earlier ones"
 ListLaterFirst == \A i, j \in 1..Len(calls) :
     LET p == calls[i].n  q == calls[j].n IN
@@ -177,4 +180,8 @@ WhereIsExactPath ==
         /\ \A n \in TNodes : (n.path # result.where /\ IsPrefix(result.where, n.path)) => n.path \in CalledPaths
         /\ NodeAt(result.where)[2] = "raises" => (calls # <<>> /\ calls[Len(calls)].n = result.where)
         /\ NodeAt(result.where)[2] = "noload" => result.where \notin CalledPaths
+        \* ... and it is the failure that was REACHED: no other failing element sits in a later
+        \* item of a list that the offending element is in an earlier item of ("later items
+        \* before earlier ones": that one would have been reached - and reported - first)
+        /\ \A f \in FailPaths : ~ListBefore(f, result.where)
 =============================================================================
